@@ -94,8 +94,14 @@ Proof.
   all: lia.
 Qed.
 
-Lemma fails_surfaced j : fails (oc j) = true -> to_wait cf oc j = true \/ to_handler cf oc j = true.
-Proof. unfold to_wait, to_handler. destruct (oc j), (handler cf); simpl; auto; discriminate. Qed.
+(* a failure is handed to the collector or to the observer - unless it is a control-valued error of a job of
+   the plain WorkerPool, which ProcessParallel consumes as a signal (finding C11:WorkerPool:control-error-dropped) *)
+Lemma fails_surfaced j :
+  fails (oc j) = true -> is_ctl (oc j) = false \/ handler cf = true ->
+  to_wait cf oc j = true \/ to_handler cf oc j = true.
+Proof.
+  unfold to_wait, to_handler. destruct (oc j), (handler cf); simpl; intros F [G|G]; auto; discriminate.
+Qed.
 Lemma surfaced_fails j : to_wait cf oc j = true \/ to_handler cf oc j = true -> fails (oc j) = true.
 Proof. unfold to_wait, to_handler. destruct (oc j), (handler cf); simpl; intuition discriminate. Qed.
 
@@ -218,11 +224,14 @@ Proof.
   - intros X. destruct I as [I1 I2]. destruct (I1 X) as [Y|Y]; [left; now apply I2|now right].
 Qed.
 
-(* every failure of a job that ran is in the error returned by Wait or was passed to the handler *)
+(* every failure of a job that ran is in the error returned by Wait or was passed to the handler - except a
+   control-valued error (is / wraps io.EOF, a context error, ErrIteratorSkip) returned by a job of the plain
+   WorkerPool, which the parallel-iteration code consumes as a signal (see the refutation below) *)
 Lemma pool_job_errors_surfaced_lemma :
   forall (cf : conf) (oc : nat -> outcome) (s : st), reach cf oc s ->
     forall w h s', Pool.step cf oc s (EWaitRet w h) = Some s' ->
-      (forall j, In j (finished s) -> fails (oc j) = true -> In j w \/ In j h) /\
+      (forall j, In j (finished s) -> fails (oc j) = true ->
+         is_ctl (oc j) = false \/ handler cf = true -> In j w \/ In j h) /\
       (forall j, In j w \/ In j h -> fails (oc j) = true /\ ran s j = 1).
 Proof.
   intros cf oc s Hr w h s' Hs. destruct (reach_inv cf oc s Hr) as [T R D I K [E1 E2] F].
@@ -230,13 +239,41 @@ Proof.
   { destruct s; simpl in *. destruct pc0; try discriminate. red in F. simpl in F. rewrite (F eq_refl) in Hs.
     destruct (same_set w werrs0), (same_set h herrs0); simpl in Hs; try discriminate. auto. }
   destruct X as [Sw Sh]. rewrite same_set_spec in Sw, Sh. split.
-  - intros j Hj Fj. destruct (E1 j Hj) as [A B].
-    destruct (fails_surfaced cf oc j Fj) as [Y|Y]; [left; apply Sw; auto|right; apply Sh; auto].
+  - intros j Hj Fj G. destruct (E1 j Hj) as [A B].
+    destruct (fails_surfaced cf oc j Fj G) as [Y|Y]; [left; apply Sw; auto|right; apply Sh; auto].
   - intros j Hj. assert (Z : In j (werrs s) \/ In j (herrs s)) by (destruct Hj; [left; now apply Sw|right; now apply Sh]).
     destruct (E2 j Z) as [Fj Hf]. split; [assumption|].
     pose proof (T j) as Tj. pose proof (R j) as Rj. apply cnt_In in Hf.
     destruct (memb j (accepted s)); lia.
 Qed.
+
+(* the unrestricted statement, and its refutation by the code-level model: a plain WorkerPool (even with
+   ContinueOnError and ContinueOnPanic) whose only job returns io.EOF stops, and the error is reported nowhere *)
+Definition pool_job_errors_surfaced_statement : Prop :=
+  forall (cf : conf) (oc : nat -> outcome) (s : st), reach cf oc s ->
+    forall w h s', Pool.step cf oc s (EWaitRet w h) = Some s' ->
+      forall j, In j (finished s) -> fails (oc j) = true -> In j w \/ In j h.
+
+Definition rf_cf := mkconf 1 false true true false.
+Definition rf_oc (j : nat) : outcome := match j with 0 => CtlStop | _ => Ok end.
+Definition rf_trace : list ev :=
+  [EStart; EAdd 0; EAdd 1; ESplCheck; ESplPop; EHandoff; EJobBegin 0; EJobEnd 0; ERunReturn; ECloseQ; EFinish].
+
+Lemma pool_job_errors_surfaced_refuted_lemma : ~ pool_job_errors_surfaced_statement.
+Proof.
+  intros H.
+  destruct (run (Pool.step rf_cf rf_oc) init rf_trace) as [s|] eqn:E; [|vm_compute in E; discriminate].
+  assert (Hr : reach rf_cf rf_oc s) by (exists rf_trace; exact E).
+  vm_compute in E. inversion E; subst; clear E.
+  specialize (H rf_cf rf_oc _ Hr [] [] _ eq_refl 0 (or_introl eq_refl) eq_refl).
+  destruct H as [[]|[]].
+Qed.
+(* in that run the second accepted job is never run although the context was never cancelled from outside:
+   the pool did not "keep running" (theorem pool_job_exactly_once_while_running: icancel follows the abort) *)
+Example pool_control_error_stops_pool :
+  exists s, run (Pool.step rf_cf rf_oc) init rf_trace = Some s /\ ran s 1 = 0 /\ queue s = [1]
+            /\ cancelled s = false /\ icancel s = true /\ result s = Some [].
+Proof. eexists. split; [vm_compute; reflexivity|]. repeat split. Qed.
 
 (* progress: while the pool keeps running, a pending job is never stuck for a reason inside the pool -
    some step of the pipeline (splitter check / take / hand-off, a job beginning, a job ending) is enabled,
